@@ -550,8 +550,9 @@ pub fn judge_pipeline(t: &PipelineTrace, o: &PipeOutcome) -> (Vec<Finding>, Stri
                 // (C08: an inspection's recorded materials and products are subject to its rules like a step's)
                 f.push(fnd("C08", "inspection-rule-violation-accepted", format!("pipeline: the inspection ran, the reference model rejects its rules on the working directory as it was before / after the command ({why}), yet verification returned Ok")));
             }
-        } else if !v.ok && !insp_failing {
-            // every signature, threshold and date is fine by construction: nothing but the rules can object
+        } else if !v.ok && !insp_failing && v.class == "ArtifactRuleError" {
+            // a rejection in the name of the artifact rules needs a cause in the model (a verifier that is
+            // stricter about something else — command alignment, say — is not this property's business)
             f.push(fnd(
                 "C03",
                 "rule-rejection-without-cause",
